@@ -131,6 +131,9 @@ type Job struct {
 	In     string `json:"in,omitempty"`
 	Out    string `json:"out,omitempty"`
 	Mode   string `json:"mode,omitempty"`
+	// Python: give every array a different memory layout before it is written ("F": Fortran order,
+	// "strided": a non-contiguous view); the values are the same
+	Relayout string `json:"relayout,omitempty"`
 	// C++: per-stream buffer sizes for CopyTo
 	Buf []int `json:"buf,omitempty"`
 	// cut positions etc. for other ops
